@@ -57,15 +57,47 @@ func c07Pool() (texts []string, vecs [][]int) {
 	return texts, vecs
 }
 
+// c07DocLevelPool: exceptions carrying every subset of the document-level
+// modifiers, with and without $important and $domain.
+func c07DocLevelPool() []string {
+	flags := []string{"elemhide", "jsinject", "urlblock", "content", "extension", "genericblock", "generichide", "document"}
+	var out []string
+	for mask := 0; mask < 1<<len(flags); mask++ {
+		var m []string
+		for i, f := range flags {
+			if mask&(1<<i) != 0 {
+				m = append(m, f)
+			}
+		}
+		for _, extra := range [][]string{nil, {"important"}, {"domain=a.com"}, {"domain=a.com", "important"}} {
+			all := append(append([]string{}, m...), extra...)
+			if len(all) == 0 {
+				out = append(out, "@@||x.com^")
+				continue
+			}
+			out = append(out, "@@||x.com^$"+strings.Join(all, ","))
+		}
+	}
+	return out
+}
+
 // c07Rank is the documented criteria: verdict class, then domain-specific over
 // generic, then more modifiers over fewer.  It is computed from the rule text.
 func c07Rank(text string) [3]int {
 	exc := strings.HasPrefix(text, "@@")
 	_, opts, _ := strings.Cut(strings.TrimPrefix(text, "@@"), "$")
-	imp, specific, count := false, false, 0
+	imp, specific := false, false
+	mods := map[string]bool{}
 	if opts != "" {
 		for _, o := range strings.Split(opts, ",") {
-			count++
+			if o == "document" {
+				// shorthand for five modifiers
+				for _, x := range []string{"elemhide", "jsinject", "urlblock", "content", "extension"} {
+					mods[x] = true
+				}
+			} else {
+				mods[o] = true
+			}
 			if o == "important" {
 				imp = true
 			}
@@ -91,7 +123,7 @@ func c07Rank(text string) [3]int {
 	if specific {
 		sp = 1
 	}
-	return [3]int{class, sp, count}
+	return [3]int{class, sp, len(mods)}
 }
 
 func rankLess(a, b [3]int) bool {
@@ -372,6 +404,31 @@ func TestC07(t *testing.T) {
 		}
 		rec.EvalN(n * n)
 		rec.LabelN("pairs_exhaustive", n*n)
+		// exceptions with every subset of the document-level modifiers ($document is shorthand for five of them)
+		dtexts := c07DocLevelPool()
+		drs, v := c07Parse(dtexts)
+		if v != nil {
+			return exhaustiveFail("C07", c07Case{Rules: dtexts}, v)
+		}
+		dranks := make([][3]int, len(dtexts))
+		for i, s := range dtexts {
+			dranks[i] = c07Rank(s)
+		}
+		for i := range drs {
+			for j := range drs {
+				g := drs[i].IsHigherPriority(drs[j])
+				if g != rankLess(dranks[j], dranks[i]) || (g && drs[j].IsHigherPriority(drs[i])) {
+					if rf := fail(c07Case{Rules: []string{dtexts[i], dtexts[j]}}); rf != nil {
+						return rf
+					}
+				}
+			}
+			if i%16 == 5 {
+				rec.NonTrivial("docrow|"+dtexts[i], map[string]any{"pool_rule": dtexts[i], "compared_with": "all exceptions with document-level modifiers, both directions"})
+			}
+		}
+		rec.EvalN(len(drs) * len(drs))
+		rec.LabelN("document_level_pairs_exhaustive", len(drs)*len(drs))
 		// adding a modifier makes the rule strictly higher
 		index := map[string]int{}
 		for i, s := range texts {
